@@ -18,6 +18,49 @@ def field_index(prog, pretty, name):
     return None
 
 
+def byte_weights(sv, depth=0):
+    """sv as  sum(weight_i * byte_i) + constant  over the elements of one byte sequence: ({index: weight}, constant), or None"""
+    from ..absint import const_val
+    if depth > 12:
+        return None
+    c = const_val(sv)
+    if isinstance(c, int) and not isinstance(c, bool):
+        return ({}, c)
+    if not isinstance(sv, tuple):
+        return None
+    h = sv[0]
+    if h == "cast":
+        return byte_weights(sv[2], depth + 1)
+    if h == "elem" and len(sv) > 2 and isinstance(sv[2], int):
+        return ({sv[2]: 1}, 0)
+    if h == "proj" and sv[2] and sv[2][-1][0] == "ix" and len(sv[2][-1]) > 1 and isinstance(sv[2][-1][1], int):
+        return ({sv[2][-1][1]: 1}, 0)
+    if h == "bin" and sv[1] in ("Add", "AddW", "BitOr"):
+        a, b = byte_weights(sv[3], depth + 1), byte_weights(sv[4], depth + 1)
+        if a is None or b is None:
+            return None
+        if sv[1] == "BitOr":
+            # an or of disjoint byte lanes is their sum: every weight a power of 256 and no index twice
+            if set(a[0]) & set(b[0]) or a[1] or b[1] or any(w not in (1, 256, 65536, 16777216) for w in list(a[0].values()) + list(b[0].values())):
+                return None
+        w = dict(a[0])
+        for k, v in b[0].items():
+            w[k] = w.get(k, 0) + v
+        return (w, a[1] + b[1])
+    if h == "bin" and sv[1] in ("Mul", "MulW", "Shl", "ShlW"):
+        a = byte_weights(sv[3], depth + 1)
+        k = const_val(sv[4])
+        if a is None or not isinstance(k, int):
+            a2, k2 = byte_weights(sv[4], depth + 1), const_val(sv[3])
+            if sv[1].startswith("Mul") and a2 is not None and isinstance(k2, int):
+                a, k = a2, k2
+            else:
+                return None
+        f = k if sv[1].startswith("Mul") else 2 ** k
+        return ({i: v * f for i, v in a[0].items()}, a[1] * f)
+    return None
+
+
 def refusals(env, rep, m):
     """R4: classify every Err path of every stage function by what the path state proves about the input"""
     from ..absint import Dom
@@ -169,6 +212,31 @@ def run(env, rep):
                   "%s basic header form: the reader consumes %s byte(s) and yields a csid in %s; specification: %s byte(s), csid in %s" % (
                       nm, hit and hit[1] and hit[1][:2], hit and hit[0] and list(hit[0][:2]), row["bytes"], row["csid"]), gc.span)
     rep.floor("C06.R2", "basic header forms", len(forms), 3)
+    # ... and the two extended forms by the weights of their bytes: csid = 64 + b1 (+ 256 * b2), section 5.3.1.1 (little endian)
+    def wprobe(it, S):
+        v = S.read((it.L(0), ()))
+        while isinstance(v, tuple) and v[0] == "upd":
+            v = v[1]
+        if isinstance(v, tuple) and v[0] == "agg" and v[3]:
+            w = byte_weights(v[3][0])
+            return ("weights", (tuple(sorted(w[0].items())), w[1]) if w is not None else None)
+        return ("weights", None)
+    exw = grammar.Extractor(env, gc.key, "r")
+    exw.probe = wprobe
+    exw.run()
+    got_w = set()
+    for p in exw.paths:
+        r = [t for t in p if t[0] == "returns" and "Value(" in str(t[1])]
+        pr = [t for t in p if t[0] == "probe"]
+        sel = [t for t in p if t[0] == "when" and "BitAnd 63" in t[1]]
+        if r and pr and sel and not sel[-1][2].startswith("other"):
+            got_w.add(pr[-1][1][1])
+    want_w = {(((1, 1),), 64), (((1, 1), (2, 256)), 64)}
+    ext = got_w
+    rep.check("C06.R2", "basic-header:byte-weights", ext == want_w,
+              "the extended forms compute the chunk stream id as 64 + b1 and 64 + b1 + 256 * b2",
+              "the extended basic-header forms compute the chunk stream id as %s (index: weight, constant); the specification says 64 + byte1 and 64 + byte1 + 256 * byte2 - "
+              "with the bytes swapped, 3-byte ids alias 2-byte ids of other chunk streams" % sorted(ext, key=str), gc.span)
     # the consumed byte count of form_header is the form's size
     fh = prog.bodies[m.stage_fn[m.stage_start]]
     takes = set()
